@@ -18,6 +18,9 @@ a failure THERE is claimed as a failing input.
 Source translator (DESIGN.md 3.2): `pre_build` re-translates every function from `estimate` downwards from the source text into
 lean/PersimVerif/Generated/SrcMGH.lean (harness/translator/py2lean_mgh.py, key "mgh") and Lean re-proves the obligations
 `src_<f>_eq_model` (generated definition = model, for all inputs); `run` first reports which of them no longer check.
+The public entry point in front of `estimate` (`gromov_hausdorff`, `make_distance_matrix_from_adjacency_matrix`, the int-type
+cast) is re-translated too (py2lean_ghentry.py, key "ghentry", Generated/SrcGHEntry.lean) and, composed with the translated
+`estimate`, proved equal to the composed model `MGHPublic.publicGH` (Lemmas/SrcGHEntryPublic.lean).
 """
 import itertools, math, warnings
 import numpy as np
@@ -580,14 +583,16 @@ def found_any(ctx):
     return any(f for _, f in ctx.violations) or len(ctx.violations) > 40
 
 
-# source translator (DESIGN.md 3.2): the mGH functions are re-translated from the source text on every run (key "mgh")
-TRUSTED = list(TRUSTED) + [py2lean.trusted_note("mgh")]
-PROP_FILES = ["PersimVerif/Props/C05.lean"] + py2lean.prop_files("mgh")
+# source translator (DESIGN.md 3.2): the mGH functions are re-translated from the source text on every run (key "mgh"), and so
+# is the public entry point in front of them (key "ghentry": gromov_hausdorff, make_distance_matrix_from_adjacency_matrix, the
+# int-type cast), whose composition with the translated `estimate` is proved equal to the composed model `publicGH`
+TRUSTED = list(TRUSTED) + [py2lean.trusted_note("mgh"), py2lean.trusted_note("ghentry")]
+PROP_FILES = ["PersimVerif/Props/C05.lean"] + py2lean.prop_files("mgh") + py2lean.prop_files("ghentry")
 
 
 def pre_build(ctx):
-    """source translator: regenerate Generated/SrcMGH.lean from PERSIM_ROOT's source"""
-    py2lean.pre_build(ctx, ("mgh",))
+    """source translator: regenerate Generated/SrcMGH.lean and Generated/SrcGHEntry.lean from PERSIM_ROOT's source"""
+    py2lean.pre_build(ctx, ("mgh", "ghentry"))
 
 
 def run(ctx):
@@ -1312,4 +1317,4 @@ MANIFEST = {
     "technique": "Lean 4 theorems over a hand-written model with the RNG as an explicit input + differential correspondence "
                  "with recorded np.random draws + exhaustive oracle for small graphs",
 }
-MANIFEST["note"] += " " + py2lean.manifest_note("mgh")
+MANIFEST["note"] += " " + py2lean.manifest_note("mgh") + " " + py2lean.manifest_note("ghentry")
